@@ -850,11 +850,11 @@ fn exp_node(n: &ANode, ind: usize, dtd: &Dtd, x: &mut Expect) -> Result<(), Expa
 
 fn exp_elem(e: &AElem, ind: usize, dtd: &Dtd, x: &mut Expect) -> Result<(), ExpandErr> {
     x.line(ind, &format!("element {}", e.name));
+    // [namespace attributes]: the declarations written in the start tag and the ones defaulted from the DTD
     let mut ns = vec![];
-    for a in &e.attrs {
-        if is_ns_attr(&a.name) {
-            let v = dtd.normalize_parts(&a.value, &mut vec![])?;
-            ns.push(format!("nsdecl {} = {}", a.name, q(&v)));
+    for (name, v, _) in dtd.attributes(e)? {
+        if is_ns_attr(&name) {
+            ns.push(format!("nsdecl {} = {}", name, q(&v)));
         }
     }
     ns.sort();
